@@ -33,6 +33,7 @@ PROPS = {
     "C14": dict(world="table", quick=45, thorough=480, chunk=1200),
     "C15": dict(world="table", quick=45, thorough=480, chunk=1200),
     "C16": dict(world="memb", worlds=[("memb", 0.5), ("table", 0.3), ("seat", 0.2)], quick=60, thorough=540, chunk=1500),
+    "C17": dict(world="mgr", quick=45, thorough=480, chunk=1500),
     "C18": dict(world="actor", quick=45, thorough=480, chunk=1200),
     "C19": dict(world="actor", quick=45, thorough=480, chunk=1200),
     "C20": dict(world="actor", quick=45, thorough=480, chunk=1200),
@@ -304,7 +305,7 @@ def run_replay(b, rf, dump=False):
     p = os.path.join(b.dir, "rf%d.json" % (b.njob + 1))
     with open(p, "w") as f:
         json.dump(rf, f)
-    res, err = b.run_job(replay=p, property=rf["property"], world=rf["world"], tier="replay", seed=rf["seed"], dump_log=dump, keep_all=True, timeout=300)
+    res, err = b.run_job(replay=p, property=rf["property"], world=rf["world"], tier="replay", seed=rf["seed"], dump_log=dump, keep_all=True, timeout=90)
     os.unlink(p)
     if not res:
         return None, err
@@ -332,7 +333,7 @@ def run_many(b, rfs):
     outs = []
     for (pr, jp, out, p) in procs:
         try:
-            pr.communicate(timeout=300)
+            pr.communicate(timeout=90)
         except subprocess.TimeoutExpired:
             pr.kill()
         res = read_results(out)
